@@ -418,7 +418,7 @@ Lemma rel_circ ls xs id st path kw ls' :
   exists xs' es, x_circ xs id st path kw = Some (xs', es) /\ Rel ls' xs' /\
                  notif_check ls (OEv (ECirc id st path kw)) es = true.
 Proof.
-  intros R L. cbn [lstep] in L.
+  intros R L. cbn [lstep] in L; unfold lstep_ev in L.
   destruct (ev_legal (l_tv ls) (ECirc id st path kw)) eqn:Lg; cbn [negb] in L; [|discriminate].
   assert (Lg' : ev_legal (abs (base xs)) (ECirc id st path kw) = true) by (rewrite (r_tv _ _ R); exact Lg).
   destruct (step_ok (base xs) _ (r_wf _ _ R) (r_cp _ _ R) Lg') as [post [E [W' [C' A']]]].
@@ -630,7 +630,7 @@ Lemma rel_stream ls xs id st cid host port kw ls' :
   exists xs' es, x_stream xs id st cid host port kw = Some (xs', es) /\ Rel ls' xs' /\
                  notif_check ls (OEv (EStream id st cid host port kw)) es = true.
 Proof.
-  intros R L. cbn [lstep] in L.
+  intros R L. cbn [lstep] in L; unfold lstep_ev in L.
   destruct (ev_legal (l_tv ls) (EStream id st cid host port kw)) eqn:Lg; cbn [negb] in L; [|discriminate].
   assert (Lg' : ev_legal (abs (base xs)) (EStream id st cid host port kw) = true) by (rewrite (r_tv _ _ R); exact Lg).
   destruct (step_ok (base xs) _ (r_wf _ _ R) (r_cp _ _ R) Lg') as [post [E [W' [C' A']]]].
@@ -680,41 +680,47 @@ Proof.
 Qed.
 
 (* ---------------------------------------------------------------- every operation *)
-Lemma rel_op ls xs o ls' : Rel ls xs -> lstep ls o = Some ls' ->
+(* operations whose effect depends on the command queue *)
+Definition qop (o : op) : bool := match o with OAck | OExtended _ | OBuildErr => true | _ => false end.
+
+Lemma no_notifs_cmds k (l : list N) : no_notifs (map (NCmd k) l) = true.
+Proof. unfold no_notifs, circ_listeners_called, stream_listeners_called. induction l as [|x t IH]; [reflexivity | exact IH]. Qed.
+
+Lemma rel_op ls xs o ls' : Rel ls xs -> lstep ls o = Some ls' -> qop o = false ->
   exists xs' es, x_op xs o = Some (xs', es) /\ Rel ls' xs' /\ notif_check ls o es = true.
 Proof.
-  intros R L. destruct o as [e|l|l|ob l|ob l|ob l|ob l|ob wt|ob wt|ob wt|ob wt|].
+  intros R L Hqop. destruct o as [e|l|l|ob l|ob l|ob l|ob l|ob wt|ob wt|ob wt|ob wt| |rs wt|id|]; try discriminate Hqop.
   - destruct e as [id st path kw|id st cid host port kw]; cbn [x_op]; [now apply rel_circ | now apply rel_stream].
-  - cbn [lstep] in L. injection L as <-. cbn [x_op]. eexists; eexists. split; [reflexivity|]. split; [|reflexivity].
+  - cbn [lstep] in L; unfold lstep_ev in L. injection L as <-. cbn [x_op]. eexists; eexists. split; [reflexivity|]. split; [|reflexivity].
     destruct R. constructor; cbn [base cls sls gcl gsl l_tv l_cdict l_sdict l_nc l_ns l_cregs l_sregs l_gcl l_gsl]; auto.
     + unfold add_to_all. now rewrite r_cdict0, r_cregs0.
     + now rewrite r_gcl0.
     + intros o. rewrite r_cdict0. apply (add_to_all_NoDup l (l_cdict ls) (cls xs) r_cnd0).
-  - cbn [lstep] in L. injection L as <-. cbn [x_op]. eexists; eexists. split; [reflexivity|]. split; [|reflexivity].
+  - cbn [lstep] in L; unfold lstep_ev in L. injection L as <-. cbn [x_op]. eexists; eexists. split; [reflexivity|]. split; [|reflexivity].
     destruct R. constructor; cbn [base cls sls gcl gsl l_tv l_cdict l_sdict l_nc l_ns l_cregs l_sregs l_gcl l_gsl]; auto.
     + unfold add_to_all. now rewrite r_sdict0, r_sregs0.
     + now rewrite r_gsl0.
     + intros o. rewrite r_sdict0. apply (add_to_all_NoDup l (l_sdict ls) (sls xs) r_snd0).
-  - cbn [lstep] in L. destruct (N.ltb_spec ob (l_nc ls)) as [Hlt|]; [|discriminate]. injection L as <-.
+  - cbn [lstep] in L; unfold lstep_ev in L. destruct (N.ltb_spec ob (l_nc ls)) as [Hlt|]; [|discriminate]. injection L as <-.
     cbn [x_op]. destruct (get_c ob (base xs)) eqn:G; [|exfalso; now apply (r_cex _ _ R ob Hlt)].
     eexists; eexists. split; [reflexivity|]. split; [|reflexivity].
     destruct R. constructor; cbn [base cls sls gcl gsl l_tv l_cdict l_sdict l_nc l_ns l_cregs l_sregs l_gcl l_gsl]; auto.
     + now rewrite r_cregs0.
     + intros o. rewrite tget_tset. destruct (ob =? o); [apply add_once_NoDup|]; apply r_cnd0.
-  - cbn [lstep] in L. destruct (N.ltb_spec ob (l_nc ls)) as [Hlt|]; cbn [andb] in L; [|discriminate].
+  - cbn [lstep] in L; unfold lstep_ev in L. destruct (N.ltb_spec ob (l_nc ls)) as [Hlt|]; cbn [andb] in L; [|discriminate].
     destruct (memN l (tget [] (l_cregs ls) ob)) eqn:M; [|discriminate]. injection L as <-.
     cbn [x_op]. destruct (get_c ob (base xs)) eqn:G; [|exfalso; now apply (r_cex _ _ R ob Hlt)].
     rewrite (r_cregs _ _ R), M.
     eexists; eexists. split; [reflexivity|]. split; [|reflexivity].
     destruct R. constructor; cbn [base cls sls gcl gsl l_tv l_cdict l_sdict l_nc l_ns l_cregs l_sregs l_gcl l_gsl]; auto.
     + intros o. rewrite tget_tset. destruct (ob =? o); [apply NoDup_remove1|]; rewrite <- r_cregs0; apply r_cnd0.
-  - cbn [lstep] in L. destruct (N.ltb_spec ob (l_ns ls)) as [Hlt|]; [|discriminate]. injection L as <-.
+  - cbn [lstep] in L; unfold lstep_ev in L. destruct (N.ltb_spec ob (l_ns ls)) as [Hlt|]; [|discriminate]. injection L as <-.
     cbn [x_op]. destruct (get_s ob (base xs)) eqn:G; [|exfalso; now apply (r_sex _ _ R ob Hlt)].
     eexists; eexists. split; [reflexivity|]. split; [|reflexivity].
     destruct R. constructor; cbn [base cls sls gcl gsl l_tv l_cdict l_sdict l_nc l_ns l_cregs l_sregs l_gcl l_gsl]; auto.
     + now rewrite r_sregs0.
     + intros o. rewrite tget_tset. destruct (ob =? o); [apply add_once_NoDup|]; apply r_snd0.
-  - cbn [lstep] in L. destruct (N.ltb_spec ob (l_ns ls)) as [Hlt|]; cbn [andb] in L; [|discriminate].
+  - cbn [lstep] in L; unfold lstep_ev in L. destruct (N.ltb_spec ob (l_ns ls)) as [Hlt|]; cbn [andb] in L; [|discriminate].
     destruct (memN l (tget [] (l_sregs ls) ob)) eqn:M; [|discriminate]. injection L as <-.
     cbn [x_op]. destruct (get_s ob (base xs)) eqn:G; [|exfalso; now apply (r_sex _ _ R ob Hlt)].
     rewrite (r_sregs _ _ R), M.
@@ -722,70 +728,97 @@ Proof.
     destruct R. constructor; cbn [base cls sls gcl gsl l_tv l_cdict l_sdict l_nc l_ns l_cregs l_sregs l_gcl l_gsl]; auto.
     + intros o. rewrite tget_tset. destruct (ob =? o); [apply NoDup_remove1|]; rewrite <- r_sregs0; apply r_snd0.
   - (* when_built *)
-    cbn [lstep] in L. destruct (N.ltb_spec ob (l_nc ls)) as [Hlt|]; cbn [andb] in L; [|discriminate].
+    cbn [lstep] in L; unfold lstep_ev in L. destruct (N.ltb_spec ob (l_nc ls)) as [Hlt|]; cbn [andb] in L; [|discriminate].
     destruct (negb (memN wt (l_used ls))); [|discriminate]. injection L as <-.
     cbn [x_op]. destruct (get_c ob (base xs)) as [c|] eqn:G; [|exfalso; now apply (r_cex _ _ R ob Hlt)].
     assert (Fr : forall xs' es, no_notifs es = true -> base xs' = base xs -> cls xs' = cls xs -> sls xs' = sls xs ->
                  gcl xs' = gcl xs -> gsl xs' = gsl xs ->
                  exists xs'' es', Some (xs', es) = Some (xs'', es') /\
-                   Rel {| l_tv := l_tv ls; l_cdict := l_cdict ls; l_sdict := l_sdict ls; l_nc := l_nc ls; l_ns := l_ns ls;
-                          l_cinfo := l_cinfo ls; l_sinfo := l_sinfo ls; l_cregs := l_cregs ls; l_sregs := l_sregs ls;
-                          l_gcl := l_gcl ls; l_gsl := l_gsl ls; l_used := wt :: l_used ls |} xs'' /\ no_notifs es' = true).
+                   Rel (use_q ls wt (l_nb ls) (l_ncl ls)) xs'' /\ no_notifs es' = true).
     { intros xs' es Hq B1 B2 B3 B4 B5. exists xs', es. split; [reflexivity|]. split; [|exact Hq].
       apply (Rel_frame ls _ xs xs' R); auto. }
     destruct (c_state c) as [[]|]; try (destruct (tget (OSPending []) (wbs xs) ob)); apply Fr; reflexivity.
   - (* when_closed *)
-    cbn [lstep] in L. destruct (N.ltb_spec ob (l_nc ls)) as [Hlt|]; cbn [andb] in L; [|discriminate].
+    cbn [lstep] in L; unfold lstep_ev in L. destruct (N.ltb_spec ob (l_nc ls)) as [Hlt|]; cbn [andb] in L; [|discriminate].
     destruct (negb (memN wt (l_used ls))); [|discriminate]. injection L as <-.
     cbn [x_op]. destruct (get_c ob (base xs)) as [c|] eqn:G; [|exfalso; now apply (r_cex _ _ R ob Hlt)].
     assert (Fr : forall xs' es, no_notifs es = true -> base xs' = base xs -> cls xs' = cls xs -> sls xs' = sls xs ->
                  gcl xs' = gcl xs -> gsl xs' = gsl xs ->
                  exists xs'' es', Some (xs', es) = Some (xs'', es') /\
-                   Rel {| l_tv := l_tv ls; l_cdict := l_cdict ls; l_sdict := l_sdict ls; l_nc := l_nc ls; l_ns := l_ns ls;
-                          l_cinfo := l_cinfo ls; l_sinfo := l_sinfo ls; l_cregs := l_cregs ls; l_sregs := l_sregs ls;
-                          l_gcl := l_gcl ls; l_gsl := l_gsl ls; l_used := wt :: l_used ls |} xs'' /\ no_notifs es' = true).
+                   Rel (use_q ls wt (l_nb ls) (l_ncl ls)) xs'' /\ no_notifs es' = true).
     { intros xs' es Hq B1 B2 B3 B4 B5. exists xs', es. split; [reflexivity|]. split; [|exact Hq].
       apply (Rel_frame ls _ xs xs' R); auto. }
     destruct (c_state c) as [[]|]; try (destruct (tget (OSPending []) (wcs xs) ob)); apply Fr; reflexivity.
   - (* circuit close *)
-    cbn [lstep] in L. destruct (N.ltb_spec ob (l_nc ls)) as [Hlt|]; cbn [andb] in L; [|discriminate].
-    destruct (negb (memN wt (l_used ls))); [|discriminate]. injection L as <-.
+    cbn [lstep] in L; unfold lstep_ev in L. destruct (N.ltb_spec ob (l_nc ls)) as [Hlt|]; cbn [andb] in L; [|discriminate].
+    destruct (negb (memN wt (l_used ls))); [|discriminate]. cbn [andb] in L. destruct (l_nb ls =? 0); [|discriminate]. injection L as <-.
     cbn [x_op]. destruct (get_c ob (base xs)) as [c|] eqn:G; [|exfalso; now apply (r_cex _ _ R ob Hlt)].
     assert (Fr : forall xs' es, no_notifs es = true -> base xs' = base xs -> cls xs' = cls xs -> sls xs' = sls xs ->
                  gcl xs' = gcl xs -> gsl xs' = gsl xs ->
                  exists xs'' es', Some (xs', es) = Some (xs'', es') /\
-                   Rel {| l_tv := l_tv ls; l_cdict := l_cdict ls; l_sdict := l_sdict ls; l_nc := l_nc ls; l_ns := l_ns ls;
-                          l_cinfo := l_cinfo ls; l_sinfo := l_sinfo ls; l_cregs := l_cregs ls; l_sregs := l_sregs ls;
-                          l_gcl := l_gcl ls; l_gsl := l_gsl ls; l_used := wt :: l_used ls |} xs'' /\ no_notifs es' = true).
+                   Rel (use_q ls wt (l_nb ls) (l_ncl ls + 1)) xs'' /\ no_notifs es' = true).
     { intros xs' es Hq B1 B2 B3 B4 B5. exists xs', es. split; [reflexivity|]. split; [|exact Hq].
       apply (Rel_frame ls _ xs xs' R); auto. }
     destruct (c_state c) as [[]|]; try (destruct (tfind (cclosing xs) ob)); apply Fr; reflexivity.
   - (* stream close *)
-    cbn [lstep] in L. destruct (N.ltb_spec ob (l_ns ls)) as [Hlt|]; cbn [andb] in L; [|discriminate].
-    destruct (negb (memN wt (l_used ls))); [|discriminate]. injection L as <-.
+    cbn [lstep] in L; unfold lstep_ev in L. destruct (N.ltb_spec ob (l_ns ls)) as [Hlt|]; cbn [andb] in L; [|discriminate].
+    destruct (negb (memN wt (l_used ls))); [|discriminate]. cbn [andb] in L. destruct (l_nb ls =? 0); [|discriminate]. injection L as <-.
     cbn [x_op]. destruct (get_s ob (base xs)) as [x|] eqn:G; [|exfalso; now apply (r_sex _ _ R ob Hlt)].
     destruct (s_state x) as [[]|]; try destruct (tfind (sclosing xs) ob);
       (eexists; eexists; split; [reflexivity|]; split; [|reflexivity]; apply (Rel_frame ls _ xs _ R); auto).
-  - (* acknowledgement *)
-    cbn [lstep] in L. injection L as <-. cbn [x_op].
-    destruct (cmds xs) as [|[ob wt ok|ob wt ok] q].
-    + eexists; eexists. split; [reflexivity|]. split; [exact R | reflexivity].
-    + destruct ok; [destruct (tfind (cclosing xs) ob)|];
-        (eexists; eexists; split; [reflexivity|]; split; [|reflexivity]; apply (Rel_frame ls ls xs _ R); auto).
-    + eexists; eexists. split; [reflexivity|]. split; [|reflexivity]. apply (Rel_frame ls ls xs _ R); auto.
+  - (* build_circuit *)
+    cbn [lstep] in L. destruct ((l_ncl ls =? 0) && negb (memN wt (l_used ls))); [|discriminate]. injection L as <-.
+    cbn [x_op]. eexists; eexists. split; [reflexivity|]. split; [apply (Rel_frame ls _ xs _ R); auto|].
+    cbn [notif_check]. apply (no_notifs_cmds 3 rs).
 Qed.
 
-Lemma notifications_exact_from ops : forall ls xs, Rel ls xs -> legal8_from ls ops = true ->
-  exists tr, xrun_from xs ops = Some tr /\ notifs_from ls ops tr = true.
+(* ---------------------------------------------------------------- preservation, for every operation the model performs *)
+Lemma x_op_det0 xs o a b : x_op xs o = Some a -> x_op xs o = Some b -> a = b.
+Proof. congruence. Qed.
+
+Lemma forallb_ext' {A} (f g : A -> bool) l : (forall x, f x = g x) -> forallb f l = forallb g l.
+Proof. intros H. induction l as [|x t IH]; cbn; [reflexivity | now rewrite H, IH]. Qed.
+
+Lemma notif_ok_app_done circ regs exp es w r : notif_ok circ regs exp (es ++ [NDone w r]) = notif_ok circ regs exp es.
 Proof.
-  induction ops as [|o t IH]; intros ls xs R L; cbn [xrun_from legal8_from notifs_from] in *.
-  - exists []. auto.
-  - destruct (lstep ls o) as [ls'|] eqn:E; [|discriminate].
-    destruct (rel_op ls xs o ls' R E) as [xs' [es [X [R' Nk]]]]. rewrite X.
-    destruct (IH ls' xs' R' L) as [tr [Xr Nr]]. rewrite Xr. exists (es :: tr). split; [reflexivity|].
-    cbn [notifs_from]. rewrite Nk, ?E. exact Nr.
+  unfold notif_ok. rewrite !called_c_app, !called_s_app. cbn [circ_listeners_called stream_listeners_called map concat].
+  rewrite !app_nil_r. f_equal. apply forallb_ext'. intros l. destruct circ; [rewrite calls_c_app | rewrite calls_s_app];
+    cbn [calls_of_circ calls_of_stream map concat]; now rewrite app_nil_r.
 Qed.
 
-Lemma notifications_exact rts ops : legal8 ops = true ->
-  exists tr, xrun rts ops = Some tr /\ notifs_exact ops tr = true.
-Proof. intros L. exact (notifications_exact_from ops ls0 (xinit rts) (Rel_init rts) L). Qed.
+Lemma notif_check_extended ls id es :
+  notif_check ls (OExtended id) es = notif_check ls (OEv (ext_event id)) es.
+Proof.
+  cbn [notif_check ext_event]. destruct (locate id (l_cdict ls) (l_nc ls)) as [first ob].
+  unfold expected_circ. cbn [map]. now rewrite !skipn_nil.
+Qed.
+
+Lemma Rel_with_q ls xs nb ncl : Rel ls xs -> Rel (with_q ls nb ncl) xs.
+Proof. intros R. apply (Rel_frame ls _ xs xs R); reflexivity. Qed.
+
+Lemma rel_pres ls xs o ls' xs' es : Rel ls xs -> lstep ls o = Some ls' -> x_op xs o = Some (xs', es) ->
+  Rel ls' xs' /\ notif_check ls o es = true.
+Proof.
+  intros R L X. destruct (qop o) eqn:Hq.
+  - destruct o; try discriminate Hq; cbn [lstep] in L; cbn [x_op] in X.
+    + (* acknowledgement *)
+      destruct (l_nb ls =? 0); [|discriminate]. injection L as <-.
+      destruct (cmds xs) as [|[ob wt ok|ob wt ok|wt] q]; [| | |discriminate].
+      * injection X as <- <-. split; [now apply Rel_with_q | reflexivity].
+      * destruct ok; [destruct (tfind (cclosing xs) ob)|]; injection X as <- <-;
+          (split; [apply (Rel_frame ls _ xs _ R); auto | reflexivity]).
+      * injection X as <- <-. split; [apply (Rel_frame ls _ xs _ R); auto | reflexivity].
+    + (* 250 EXTENDED id *)
+      destruct ((0 <? l_nb ls) && ext_ok (l_tv ls) id); [|discriminate].
+      destruct (lstep_ev ls (ext_event id)) as [l1|] eqn:E; [|discriminate]. injection L as <-.
+      destruct (cmds xs) as [|[ob wt ok|ob wt ok|wt] q]; try discriminate.
+      destruct (rel_circ ls xs id CExtended [] [] l1 R E) as [xs1 [es1 [X1 [R1 N1]]]]. rewrite X1 in X. injection X as <- <-.
+      split; [apply (Rel_frame l1 _ xs1 _ R1); auto|].
+      rewrite notif_check_extended. cbn [notif_check ext_event] in *.
+      destruct (locate id (l_cdict ls) (l_nc ls)) as [first ob]. now rewrite notif_ok_app_done.
+    + (* 5xx *)
+      destruct (0 <? l_nb ls); [|discriminate]. injection L as <-.
+      destruct (cmds xs) as [|[ob wt ok|ob wt ok|wt] q]; try discriminate. injection X as <- <-.
+      split; [apply (Rel_frame ls _ xs _ R); auto | reflexivity].
+  - destruct (rel_op ls xs o ls' R L Hq) as [xs2 [es2 [X2 [R2 N2]]]]. rewrite X in X2. injection X2 as <- <-. auto.
+Qed.
